@@ -101,6 +101,44 @@ def renderList (first : Bytes) (rest : List Bytes) : Bytes :=
   | [] => first ++ [LF]
   | _ => LIST_BEGIN ++ (first :: rest).flatMap (fun c => c ++ [LF]) ++ LIST_END
 
+/-! ## `CommandList(Vec<Command>)` as a value: `new` / `add` / `command` / `extend` / `render` -/
+
+/-- `CommandList::new` -/
+def listNew (first : Bytes) : List Bytes := [first]
+/-- `CommandList::add` and `CommandList::command` (`Vec::push`) -/
+def listAdd (l : List Bytes) (c : Bytes) : List Bytes := l ++ [c]
+/-- `Extend<Command> for CommandList` (`Vec::extend`) -/
+def listExtend (l : List Bytes) (cs : List Bytes) : List Bytes := l ++ cs
+
+/-- `CommandList::render` on the vector (`len() == 1` pops the only command; the vector is never
+empty by construction, the code would then write an empty begin/end block) -/
+def listRender : List Bytes → Bytes
+  | [c] => c ++ [LF]
+  | l => LIST_BEGIN ++ l.flatMap (fun c => c ++ [LF]) ++ LIST_END
+
+/-- one step of building a list after `CommandList::new` -/
+inductive ListOp where
+  | add (c : Bytes)            -- `add`
+  | command (c : Bytes)        -- `command` (chaining form of `add`)
+  | extend (cs : List Bytes)   -- `extend`
+
+def ListOp.apply (l : List Bytes) : ListOp → List Bytes
+  | .add c => listAdd l c
+  | .command c => listAdd l c
+  | .extend cs => listExtend l cs
+
+/-- the commands an operation contributes, in order -/
+def ListOp.cmds : ListOp → List Bytes
+  | .add c => [c]
+  | .command c => [c]
+  | .extend cs => cs
+
+/-! ## known finding K1 (class predicate, see `MpdProofs/C06.lean`) -/
+
+/-- the argument contains `'`, `"` or `\` but nothing that forces quoting: it is rendered
+backslash-escaped but unquoted -/
+def isK1 (a : Bytes) : Bool := a.any shouldEscape && !(needsQuotes a)
+
 /-- `Argument for bool` -/
 def renderBool (b : Bool) : Bytes := if b then [49] else [48]
 /-- `Argument for u8 … usize` -/
